@@ -357,6 +357,27 @@ func (r *run) checkRestore(dir string) {
 				r.fail(tag, "restore with hint %d (gap %d) does not find address index %d (%s), which has best-chain history; found %d addresses", hint, r.m.O.Gap, x.Index, x.Std, len(addrs))
 			}
 		}
+		// the restored wallet goes on issuing: once its rescan is done, the next address it hands
+		// out must be one it does not hold yet, derived at the next index of the key chain
+		done := false
+		for k := 0; k < 6 && !done; k++ {
+			fin, err := i2.W.VerifRunImportStep(ws.WalletID)
+			if err != nil {
+				break
+			}
+			done = fin
+		}
+		if done {
+			if _, err := i2.W.UseWallet(ws.WalletID); err == nil {
+				if next, err := i2.W.NewAddress(massutil.AddressClassWitnessV0); err == nil {
+					if have[next] {
+						r.fail("restore-reissues", "after a restore with hint %d the next NewAddress returns %s, which the restored wallet already holds (%d addresses)", hint, next, len(addrs))
+					} else if ra, rerr := r.ref.Addr(uint32(len(addrs))); rerr == nil && !r.ref.Affected && next != ra.Std {
+						r.fail("restore-next-index", "after a restore with hint %d that holds %d addresses the next NewAddress returns %s, the key chain's address at index %d is %s", hint, len(addrs), next, len(addrs), ra.Std)
+					}
+				}
+			}
+		}
 		i2.CloseRaw()
 	}
 }
